@@ -240,6 +240,8 @@ def build(prog, seed, positive_input=True):
     with torch.no_grad():
         for n, p in m.named_parameters():
             if n.endswith('sn_combiner.alpha'):
+                if prog.get('alpha_ramp'):      # non-uniform selection coefficients in the USER's model
+                    p.copy_(torch.linspace(0.9, 0.1, p.numel()).reshape(p.shape))
                 continue
             p.copy_(torch.randn(p.shape, generator=g) * 0.4 + 0.03)
         for mod in m.modules():
@@ -265,6 +267,14 @@ def shape_args(prog, x):
     """how the input signature is given to a PLiNIO constructor"""
     if prog.get('two_in'):
         return {'input_example': tuple(t[:1] for t in x)}
+    # rotates over the programs (deterministically): the shape, a one-sample example, the whole 3-sample witness batch
+    import hashlib
+    import json
+    via = int(hashlib.sha1(json.dumps(prog, sort_keys=True).encode()).hexdigest(), 16) % 3
+    if via == 1:
+        return {'input_example': x[:1].clone()}
+    if via == 2:
+        return {'input_example': x.clone()}
     return {'input_shape': input_shape(prog)}
 
 
